@@ -1,0 +1,43 @@
+//go:build verif
+
+/*
+Copyright 2019 PingCAP, Inc.
+
+Licensed under the Apache License, Version 2.0 (the "License");
+you may not use this file except in compliance with the License.
+You may obtain a copy of the License at
+
+    http://www.apache.org/licenses/LICENSE-2.0
+
+Unless required by applicable law or agreed to in writing, software
+distributed under the License is distributed on an "AS IS" BASIS,
+WITHOUT WARRANTIES OR CONDITIONS OF ANY KIND, either express or implied.
+See the License for the specific language governing permissions and
+limitations under the License.
+*/
+
+package statefulset
+
+import (
+	"k8s.io/client-go/util/workqueue"
+)
+
+// The functions in this file exist only when the package is built with the
+// "verif" tag. They let an external conformance harness step the controller
+// deterministically (one reconcile or one work item at a time) and observe
+// the work queue. They add no behaviour.
+
+// VerifSync runs one reconcile of key exactly as a worker would.
+func (ssc *StatefulSetController) VerifSync(key string) error {
+	return ssc.sync(key)
+}
+
+// VerifProcessNextWorkItem processes one item of the work queue.
+func (ssc *StatefulSetController) VerifProcessNextWorkItem() bool {
+	return ssc.processNextWorkItem()
+}
+
+// VerifQueue returns the controller's work queue.
+func (ssc *StatefulSetController) VerifQueue() workqueue.RateLimitingInterface {
+	return ssc.queue
+}
